@@ -1,15 +1,34 @@
 // Copyright 2020 TiKV Project Authors. Licensed under Apache-2.0.
 
 use std::cell::Cell;
+use std::cell::RefCell;
 use std::fmt;
 use std::rc::Rc;
 use std::str::FromStr;
+
+use rand::Rng;
+use rand::SeedableRng;
+use rand::distr::Distribution;
+use rand::distr::StandardUniform;
+use rand::rngs::SmallRng;
 
 use crate::Span;
 use crate::local::local_span_stack::LOCAL_SPAN_STACK;
 
 thread_local! {
-    static LOCAL_ID_GENERATOR: Cell<(u32, u32)> = Cell::new((rand::random(), 0))
+    static LOCAL_ID_GENERATOR: Cell<(u32, u32)> = Cell::new((random(), 0))
+}
+
+thread_local! {
+    // A generator without a destructor: unlike the thread-local generator behind `rand::random()`
+    // it stays usable while the thread's local storage is being torn down, so ids can still be
+    // made by tracing calls issued from other thread-locals' destructors.
+    static LOCAL_RNG: RefCell<SmallRng> = RefCell::new(SmallRng::from_os_rng());
+}
+
+fn random<T>() -> T
+where StandardUniform: Distribution<T> {
+    LOCAL_RNG.with(|rng| rng.borrow_mut().random())
 }
 
 /// An identifier for a trace, which groups a set of related spans together.
@@ -27,7 +46,7 @@ impl TraceId {
     /// let trace_id = TraceId::random();
     /// ```
     pub fn random() -> Self {
-        TraceId(rand::random())
+        TraceId(random())
     }
 }
 
@@ -75,7 +94,7 @@ impl SpanId {
     /// let span_id = SpanId::random();
     /// ```
     pub fn random() -> Self {
-        SpanId(rand::random())
+        SpanId(random())
     }
 
     #[inline]
@@ -92,7 +111,7 @@ impl SpanId {
 
                 SpanId(((prefix as u64) << 32) | (suffix as u64))
             })
-            .unwrap_or_else(|_| SpanId(rand::random()))
+            .unwrap_or_else(|_| SpanId(random()))
     }
 }
 
